@@ -30,6 +30,7 @@ import random as _random
 import re
 
 from . import common, tlc, gen
+from .exc import exc_name
 
 INT_LIMIT = 2 ** 31 - 2          # TLC integers are 32 bit
 _LINEBREAK = re.compile(r"\r\n|\r|\n")          # text-file line terminators (universal newlines)
@@ -109,7 +110,7 @@ def real_read(source):
     except ValueError:
         return "ValueError", None
     except Exception as e:                      # judged by the specification
-        return type(e).__name__[:24], None
+        return exc_name(e)[:24], None
     return "accept", project(F)
 
 
@@ -495,7 +496,7 @@ def write_records(ck, wd, formulas):
                 try:
                     F.to_file(path, export_header=h, export_varnames=v)
                 except Exception as e:          # judged by the specification
-                    recs.append({"id": rid, "kind": "write", "wrote": type(e).__name__[:24], "formula": form,
+                    recs.append({"id": rid, "kind": "write", "wrote": exc_name(e)[:24], "formula": form,
                                  "options": {"header": h, "varnames": v}, "lines": [],
                                  "reread": dict(NORESULT, outcome="not_written")})
                     continue
@@ -527,7 +528,7 @@ def write_records(ck, wd, formulas):
             buf = io.StringIO()
             F.to_file(buf, fileformat="dimacs", export_header=True, export_varnames=True)
         except Exception as e:
-            recs.append({"id": "w-%s-td" % name, "kind": "write", "wrote": type(e).__name__[:24],
+            recs.append({"id": "w-%s-td" % name, "kind": "write", "wrote": exc_name(e)[:24],
                          "formula": form, "options": {"header": False, "varnames": False}, "lines": [],
                          "reread": dict(NORESULT, outcome="not_written")})
             continue
@@ -569,7 +570,7 @@ def filename_roundtrip(ck, wd):
             out.append(("fname-" + tag, CNF.from_file(p)))
         except Exception as e:      # the text is what the writer emits for [[1,-2],[2]]: a round trip failure
             ck.report({"id": "fname-" + tag, "text": "p cnf 2 2\n1 -2 0\n2 0\n", "file": p,
-                       "kf": "reader:refuses-writer-style-text"}, "reread_" + type(e).__name__)
+                       "kf": "reader:refuses-writer-style-text"}, "reread_" + exc_name(e))
     return out
 
 
@@ -757,7 +758,7 @@ def cli_records(ck, wd, inputs):
         except (ValueError, CLIError):          # CLIError: the command line's own refusal
             outcome, result = "ValueError", None
         except Exception as e:
-            outcome, result = type(e).__name__, None
+            outcome, result = exc_name(e), None
         rec, huge = read_record(rid + ":c", data, outcome, result)
         if not huge:
             recs.append(rec)
